@@ -5,7 +5,7 @@ NOTES = ("Every check re-compiles coq/theories/Properties/<id>.v (theorems over 
 NOT_APPLICABLE = {}
 CLAIMS = {
     "C07": {
-        "text": "Theorems over the Fetch model for every env and canon (24, closed under the global context) on D07 (distinct dot-free entry names; nested multiples and further master "
+        "text": "Theorems over the Fetch model for every env and canon (29, closed under the global context) on D07 (distinct dot-free entry names; nested multiples and further master "
                 "occurrences allowed; no deprecated; stable choices; $-free) under the single oracle hypothesis H_default_canonical (for each .multiple entry k, canon of k fetched against "
                 "itself = canon the master reports for k): re-fetching a result as an object is a fixed point; a master copy, the master object itself (Python's identity skip modelled), "
                 "any master-like first source, or the master's own defaults M.fetch() as first source (C07_defaults_first, no well-formedness needed) change nothing (equality of outcomes incl. errors); fetching nothing = fetching the master; any history of such cycles leaves W unchanged; "
@@ -14,17 +14,18 @@ CLAIMS = {
                 "line-insensitive strengthening of C05's observational lemma): fetching parse(print W) gives W up to the line numbers of value words and with identical printed forms, "
                 "for masters without hidden templates and canon blind to word lines; for PARSED masters and sources (no .multiple/disabled object under a dotted prefix, printable choice "
                 "alternatives) printing, parsing and re-fetching are proved to succeed (C07_refetch_text_parsed). Two obscure text-form counterexamples found by the proof are open findings. "
-                "PARTIAL: the defaults as re-parsed TEXT in front of other sources are decided by the stream on every run.",
+                "The defaults as re-parsed TEXT in front of other sources: same outcome (same error, or results equal up to word lines with identical printed forms; C07_defaults_text_first, "
+                "discharged for parsed masters). No clause of the property is left to the stream alone inside the domain; outside it the open findings apply.",
         "note": "Trusted as C04 (Fetch model, canon oracle recorded per fetch call, identity probes for nested multiples). in_domain evaluates D07 incl. H_default_canonical through the "
                 "library's own extract_format on every case.",
     },
     "C08": {
-        "text": "Theorems over the Fetch and Vars models (17): for ALL masters/sources/env/canon every definition of a diff has a canonical text different from its master's, no scope of a diff is "
+        "text": "Theorems over the Fetch and Vars models (19): for ALL masters/sources/env/canon every definition of a diff has a canonical text different from its master's, no scope of a diff is "
                 "empty, nothing undeclared appears (C08_only_differences); on D08 (D07 + unique names + no .multiple scope, under H_self) the diff, the restore (kept values identical, "
                 "dropped values back as the master's own with the same canon, multiple blocks unchanged in order), diff-of-restored = diff and empty diff of defaults are characterised "
                 "block-wise. F7c refuted by witness (a further master occurrence reorders the restore). With .multiple scopes (any nesting, D07 + unique names): working blocks, the diff (partial instances keyed by "
-                "their text; under the named oracle hypothesis partial_texts_ok, shown necessary) and the empty diff of the defaults. Unresolved $variables stay textual: the text written for such a reference ($name, or $(name) "
-                "where the bare form would read differently; /repo cef4de5 + 9ff1177) re-reads as the same reference whatever follows it (6 theorems over the scanner model, all names, all following texts). PARTIAL: restore / diff-of-restored for .multiple scopes, text forms and non-raising of later runs by stream only.",
+                "their text; under the named oracle hypothesis partial_texts_ok, shown necessary), the empty diff of the defaults, the restore and diff-of-restored = diff (under restored_texts_ok). Unresolved $variables stay textual: the text written for such a reference ($name, or $(name) "
+                "where the bare form would read differently; /repo cef4de5 + 9ff1177) re-reads as the same reference whatever follows it (6 theorems over the scanner model, all names, all following texts). PARTIAL: text forms, non-raising of later runs and the step from equal canonical texts to equal extracted values by stream only.",
         "note": "Trusted as C07.",
     },
     "C09": {
